@@ -172,22 +172,49 @@ def concat(mod):
     """implicit concatenation of adjacent string literals inside a collection display of string constants"""
     out = []
     src = mod.source if hasattr(mod, 'source') else open(mod.path, encoding='utf-8').read()
-    toks = list(tokenize.generate_tokens(io.StringIO(src).readline))
-    adj = set()         # (line, col) of a STRING token that directly follows another STRING token (comments / newlines between them allowed)
-    prev = None
-    for t in toks:
-        if t.type in (tokenize.COMMENT, tokenize.NL, tokenize.NEWLINE, tokenize.INDENT, tokenize.DEDENT):
-            continue
-        if t.type == tokenize.STRING and prev is not None and prev.type == tokenize.STRING:
-            adj.add(t.start)
-        prev = t
-    if not adj:
-        return out
+    lines = src.split('\n')
+    blines = {}
+
+    def segment(e):
+        # source text of one constant (utf-8 column offsets); only that text is tokenised: tokenising a whole file is quadratic
+        # in the length of its longest line on CPython 3.12 (a generated / reformatted table on one line costs gigabytes)
+        if e.end_lineno - e.lineno > 12:
+            return None
+        seg = []
+        for ln in range(e.lineno, e.end_lineno + 1):
+            b_ = blines.get(ln)
+            if b_ is None:
+                b_ = blines[ln] = lines[ln - 1].encode('utf-8')
+            lo = e.col_offset if ln == e.lineno else 0
+            hi = e.end_col_offset if ln == e.end_lineno else len(b_)
+            seg.append(b_[lo:hi].decode('utf-8', 'replace'))
+        return '\n'.join(seg)
+
+    class _Adj(object):
+        """positions-free replacement of the old token set: `inside(e)` is true when the constant e is written as 2+ literals"""
+        def __init__(self):
+            self.memo = {}
+
+        def inside(self, e):
+            k = (e.lineno, e.col_offset)
+            if k in self.memo:
+                return self.memo[k]
+            r = False
+            seg = segment(e)
+            if seg is not None and len(seg) > len(e.value) + 2 and len(seg) < 4000:
+                try:
+                    n_str = sum(1 for t in tokenize.generate_tokens(io.StringIO('(' + seg + ')').readline) if t.type == tokenize.STRING)
+                    r = n_str >= 2
+                except (tokenize.TokenError, SyntaxError, IndentationError):
+                    r = False
+            self.memo[k] = r
+            return r
+    adj = _Adj()
     for n in ast.walk(mod.tree):
         if isinstance(n, ast.Compare) and len(n.ops) == 1 and isinstance(n.ops[0], (ast.In, ast.NotIn)) \
                 and isinstance(n.comparators[0], ast.Constant) and isinstance(n.comparators[0].value, str):
             e = n.comparators[0]
-            inside = [p for p in adj if (e.lineno, e.col_offset) < p <= (e.end_lineno, e.end_col_offset)]
+            inside = adj.inside(e)
             if inside:
                 out.append(('CONCAT', e.lineno,
                             '`%s` tests membership in %r, a single string made of adjacent literals (a missing comma in what was meant as a '
@@ -196,8 +223,8 @@ def concat(mod):
         if isinstance(n, (ast.Tuple, ast.List, ast.Set)) and len(n.elts) >= 3 and all(
                 isinstance(e, ast.Constant) and isinstance(e.value, str) for e in n.elts):
             for e in n.elts:
-                inside = [p for p in adj if (e.lineno, e.col_offset) < p <= (e.end_lineno, e.end_col_offset)]
-                if inside and len(e.value) <= 24:
+                inside = len(e.value) <= 24 and adj.inside(e)
+                if inside:
                     out.append(('CONCAT', e.lineno,
                                 'the element %r of a collection of %d string constants is written as adjacent literals (a missing comma): two '
                                 'members have silently become one, and neither of them is in the collection' % (e.value, len(n.elts)),
